@@ -193,6 +193,15 @@ def gen_edfa(rng, uid, *, settings=None, varieties=None, power_mode=True):
     return el
 
 
+def egress_degree_uid(roadm_uid, next_uid, typ):
+    """uid of the element that will be adjacent to the ROADM on this egress after auto-design."""
+    return f'Edfa_booster_{roadm_uid}_to_{next_uid}' if typ[next_uid] in ('Fiber', 'RamanFiber') else next_uid
+
+
+def ingress_degree_uid(roadm_uid, prev_uid, typ):
+    return f'Edfa_preamp_{roadm_uid}_from_{prev_uid}' if typ[prev_uid] in ('Fiber', 'RamanFiber') else prev_uid
+
+
 def gen_topology(rng, *, n_sites=None, max_sites=5, max_spans=3, whole_km=False, user_amps=True, fused=True,
                  max_km=140, extra_links=None, roadm_params=None, per_degree=False, lumped=False,
                  per_freq_loss=False, long_fibers=False, amp_varieties=None, roadm_variety=None,
@@ -269,11 +278,12 @@ def gen_topology(rng, *, n_sites=None, max_sites=5, max_spans=3, whole_km=False,
             uids = [f'roadm {src}'] + [e['uid'] for e in chain] + [f'roadm {dst}']
             cx.extend(zip(uids[:-1], uids[1:]))
             desc['dirs'][f'{src}>{dst}'] = info
+    typ = {e['uid']: e['type'] for e in els}
     if per_degree:
         # per-degree targets of a policy type possibly different from the node default
         for e in els:
             if e['type'] == 'Roadm' and rng.random() < 0.6:
-                degs = [t for f, t in cx if f == e['uid'] and not t.startswith('trx')]
+                degs = [egress_degree_uid(e['uid'], t, typ) for f, t in cx if f == e['uid'] and not t.startswith('trx')]
                 for d in degs:
                     r = rng.random()
                     if r < 0.25:
